@@ -209,6 +209,51 @@ void h_comp_read_ctl(void) {
     V_COVER(r > 0 && in.cur == 1 && zck->comp.data_idx != n1);     /* crossed a chunk boundary */
 }
 
+/* ---- control-only unit of zck_get_chunk_data (C14): ANY decoder state left by ANY request history, any list;
+ * the canonical-state requirement of comp_read (compiled in by -DVERIF_CANON) is checked at the call site */
+void h_zck_get_chunk_data_ctl(void) {
+    IN_rdc in = nondet_IN_rdc();
+    zckCtx *zck = malloc(sizeof(*zck));
+    V_ASSUME(zck != NULL);
+    *zck = in.any;
+    zckChunk *n1 = malloc(sizeof(*n1)), *n2 = malloc(sizeof(*n2));
+    V_ASSUME(n1 != NULL && n2 != NULL);
+    *n1 = in.c1; *n2 = in.c2;
+    n1->next = in.has2 ? n2 : NULL; n1->zck = zck; n2->zck = zck;
+    zck->index.first = in.first_null ? NULL : n1;
+    zckChunk *req = in.cur == 1 ? n1 : n2;                      /* the requested chunk: the dictionary entry or another one */
+    zck->comp.data_idx = in.use_dict == 0 ? NULL : in.use_dict == 1 ? n1 : n2;   /* wherever an earlier request stopped */
+    g_n1 = g_n2 = g_n3 = NULL; g_canon_idx = req; g_canon_on = 1;
+    zck->comp.end_dchunk = verif_end_dchunk; zck->comp.decompress = verif_decompress; zck->comp.init = verif_cinit; zck->comp.close = verif_cclose;
+    V_ASSUME(zck->comp.type == ZCK_COMP_NONE || zck->comp.type == ZCK_COMP_ZSTD);
+    V_ASSUME(zck->error_state >= 0 && zck->error_state <= 2);
+    zck->check_chunk_hash.type = in.cchunk_typed ? &zck->chunk_hash_type : NULL;
+    zck->check_full_hash.type = in.cfull_typed ? &zck->hash_type : NULL;
+    /* buffers an earlier request may have left behind (freed by the reset path) */
+    zck->comp.data = NULL; zck->comp.dc_data = NULL; zck->comp.dict = NULL; zck->check_chunk_hash.ctx = NULL;
+    if(in.dst_null & 2) { zck->comp.data = malloc(4); V_ASSUME(zck->comp.data != NULL); }
+    if(in.dst_null & 4) { zck->comp.dc_data = malloc(4); V_ASSUME(zck->comp.dc_data != NULL); }
+    if(in.dst_null & 8) { zck->comp.dict = malloc(4); V_ASSUME(zck->comp.dict != NULL); }
+    if(in.dst_null & 16) { zck->check_chunk_hash.ctx = malloc(1); V_ASSUME(zck->check_chunk_hash.ctx != NULL); }
+    g_hu_hash = &zck->check_chunk_hash;
+    g_hu_total = in.hu_total0; g_hu_k = in.hu_k; g_hu_seen = in.hu_seen0;
+    g_hu_final = in.hu_final0; g_hu_inits = in.hu_inits0; g_k1 = in.k1;
+    V_ASSUME(in.hu_final0 < 1000 && in.hu_inits0 < 1000 && in.hu_seen0 < 1000);
+    for(int i = 0; i < G_NFD; i++) { g_fpos[i] = in.pos0[i]; g_rd_bytes[i] = in.rd0[i]; }
+    V_ASSUME(in.failed0 == 0 || in.failed0 == 1);
+    g_io_failed = in.failed0;
+    V_ASSUME(in.dst_size <= 64);
+    char *dst = (in.dst_null & 1) ? NULL : malloc(in.dst_size);
+    V_ASSUME((in.dst_null & 1) || dst != NULL);
+    int err0 = zck->error_state, eof0 = zck->comp.data_eof; size_t loc0 = zck->comp.data_loc;
+    ssize_t r = zck_get_chunk_data(req, dst, in.dst_size);
+    V_ASSERT(r < 0 || (size_t)r <= req->length, "C14.zck_get_chunk_data.at_most_the_declared_size");
+    V_COVER(r > 0 && eof0);                                   /* request after the end of data had been reached */
+    V_COVER(r > 0 && loc0 > 0 && in.use_dict == 2 && in.cur == 1);     /* request after a partially read other chunk */
+    V_COVER(r > 0 && (in.dst_null & 8) == 0);                 /* dictionary loaded on demand */
+    V_COVER(r == 0); V_COVER(r < 0 && err0 == 0 && zck->mode == ZCK_MODE_READ);
+}
+
 void h_zck_get_chunk_data(void) {
     IN_rd in = nondet_IN_rd();
     zckCtx *zck = mk_reader3(&in);
